@@ -27,6 +27,8 @@ type Obs struct {
 	// Auth: per attached session id, the authentications the protocol server requested for that id.
 	Auth         map[string][]core.VerifC03EAuthRec `json:"auth,omitempty"`
 	Tries        int                                `json:"tries"`
+	// wall-clock seconds of connect / observe / teardown (diagnostics only)
+	ConnS, ObsS, TearS float64
 	HarnessError string                             `json:"harness_error,omitempty"`
 }
 
@@ -34,10 +36,12 @@ type Obs struct {
 type WorkerResult struct {
 	Obs          []Obs  `json:"obs"`
 	HarnessError string `json:"harness_error,omitempty"`
+	// wall-clock seconds of the phases (diagnostics only)
+	StartS, ReadS, PubS float64
 }
 
 const (
-	portBase    = 27000
+	portBase    = 26100
 	waitTimeout = 60 * time.Second
 )
 
@@ -69,9 +73,10 @@ func runJob(idx int, tmp string, job Job) (res WorkerResult) {
 	}
 	var p *core.Core
 	var ports e2elib.Ports
+	t0 := time.Now()
 	for try := 0; ; try++ {
 		var err error
-		ports, err = e2elib.PickBlock(portBase, idx+try*16)
+		ports, err = e2elib.PickBlock(portBase, idx, job.Workers, try)
 		if err != nil {
 			return WorkerResult{HarnessError: err.Error()}
 		}
@@ -91,14 +96,16 @@ func runJob(idx int, tmp string, job Job) (res WorkerResult) {
 			return WorkerResult{HarnessError: err.Error()}
 		}
 		var ok bool
-		p, ok = e2elib.StartCore(fn, 3)
+		p, ok = e2elib.StartCore(fn, 12)
 		if ok {
 			break
 		}
-		if try >= 3 {
+		if try >= 5 {
 			return WorkerResult{HarnessError: "the Core does not start (see the worker log)"}
 		}
 	}
+	res.StartS = time.Since(t0).Seconds()
+	t0 = time.Now()
 	w := &worker{idx: idx, ports: ports, api: e2elib.NewAPI(ports.Addr(e2elib.PAPI)),
 		pubLock: map[string]*sync.Mutex{}}
 	w.authLog = core.VerifC03ERecordAuth(p)
@@ -187,6 +194,8 @@ func runJob(idx int, tmp string, job Job) (res WorkerResult) {
 		}
 	}
 
+	res.ReadS = time.Since(t0).Seconds()
+	t0 = time.Now()
 	// Phase P: publishers; one at a time per path.
 	{
 		var wg sync.WaitGroup
@@ -203,6 +212,7 @@ func runJob(idx int, tmp string, job Job) (res WorkerResult) {
 		wg.Wait()
 	}
 
+	res.PubS = time.Since(t0).Seconds()
 	for _, c := range job.Cases {
 		res.Obs = append(res.Obs, out[c.ID])
 	}
@@ -354,7 +364,10 @@ func (w *worker) runCase(c Case) Obs {
 				return o
 			}
 		}
+		t0 := time.Now()
 		cl, keepAlive := w.connect(c)
+		o.ConnS = time.Since(t0).Seconds()
+		t0 = time.Now()
 		if cl.Outcome == e2elib.OutError {
 			cl.Close()
 			if try >= 3 {
@@ -389,9 +402,12 @@ func (w *worker) runCase(c Case) Obs {
 			o.HarnessError = "API: " + err.Error()
 			return o
 		}
+		o.ObsS = time.Since(t0).Seconds()
+		t0 = time.Now()
 		if err = w.teardown(cl, c, &o); err != nil {
 			o.HarnessError = err.Error()
 		}
+		o.TearS = time.Since(t0).Seconds()
 		return o
 	}
 }
